@@ -6,7 +6,7 @@ src = "/tmp/seed-%s-work/change%d" % (pid, i)
 dst = "/verif/seeded/%s-%d" % (pid, i)
 os.makedirs(dst, exist_ok=True)
 for f in os.listdir(src):
-    if f in ("patch.diff", "demo.cpp", "demo.sh", "notes.md") or f.endswith(".cpp") or f.endswith(".h"):
+    if f in ("patch.diff", "demo.cpp", "demo.sh", "notes.md", "build_demo.sh") or f.endswith((".cpp", ".h", ".hpp", ".inc", ".sh")):
         if os.path.isfile(os.path.join(src, f)):
             shutil.copy(os.path.join(src, f), dst)
 notes = open(os.path.join(src, "notes.md")).read() if os.path.exists(os.path.join(src, "notes.md")) else ""
